@@ -3,7 +3,7 @@ CONSTANTS
   Emit = FALSE
   Queries = {"print", "screen", "tv", "all", "PRINT", "ALL", "not print", "only screen and (color: #fff)", "screen and (min-width: 400px) and (color)", "(max-width: 20em)", "print and (min-resolution: 2)"}
   TextTypes = {"print", "screen", "PRINT", "tv"}
-  MaxLen = 4
+  MaxLen = 3
   MaxHist = 5
 CONSTRAINT Bounded
 VIEW View
